@@ -416,6 +416,8 @@ type LoopInvClient interface {
 type Exec struct {
 	StrictConv     bool // integer conversions that may change the value yield opaque terms
 	NormSubslice   bool // s[lo:hi][j] is s[lo+j], len(s[lo:hi]) is hi-lo (opaque slices)
+	Comprehend     bool // summarise positional list comprehensions (exec_fam.go)
+	NComprehended  int
 	UniqueMake     bool // make([]T, n) yields a distinct term per site instead of an empty abstract list
 	HavocSlicePhis bool // loop-carried slices are unknown per iteration (not accumulated lists)
 	P              *Program
@@ -706,10 +708,27 @@ func (x *Exec) binop(op token.Token, a, b *Term, typ types.Type) *Term {
 				return tConst(strconv.FormatInt(ia+ib, 10), typ)
 			}
 		}
+		if ib, ok := constInt(b); ok {
+			if t := addConst(a, ib, typ); t != nil {
+				return t
+			}
+		}
+		if ia, ok := constInt(a); ok {
+			if _, isStr := constString(a); !isStr {
+				if t := addConst(b, ia, typ); t != nil {
+					return t
+				}
+			}
+		}
 	case token.SUB:
 		if ia, ok := constInt(a); ok {
 			if ib, ok := constInt(b); ok {
 				return tConst(strconv.FormatInt(ia-ib, 10), typ)
+			}
+		}
+		if ib, ok := constInt(b); ok {
+			if t := addConst(a, -ib, typ); t != nil {
+				return t
 			}
 		}
 	case token.OR:
@@ -720,6 +739,37 @@ func (x *Exec) binop(op token.Token, a, b *Term, typ types.Type) *Term {
 		}
 	}
 	return mk("bin", op.String(), typ, a, b)
+}
+
+// addConst folds (x +/- c1) + c into x +/- (c1+c) and x + 0 into x (valid in
+// modular arithmetic as well); nil if a has no such shape.
+func addConst(a *Term, c int64, typ types.Type) *Term {
+	if c == 0 {
+		return a
+	}
+	if a.Op != "bin" || len(a.Args) != 2 || (a.Aux != "+" && a.Aux != "-") {
+		return nil
+	}
+	c1, ok := constInt(a.Args[1])
+	if !ok {
+		return nil
+	}
+	if _, isStr := constString(a.Args[1]); isStr {
+		return nil
+	}
+	if a.Aux == "-" {
+		c1 = -c1
+	}
+	sum := c1 + c
+	x := a.Args[0]
+	switch {
+	case sum == 0:
+		return x
+	case sum > 0:
+		return mk("bin", "+", typ, x, tConst(strconv.FormatInt(sum, 10), a.Args[1].Typ))
+	default:
+		return mk("bin", "-", typ, x, tConst(strconv.FormatInt(-sum, 10), a.Args[1].Typ))
+	}
 }
 
 func cmpFold(a, b *Term, f func(int) bool, dflt *Term) *Term {
@@ -1059,6 +1109,9 @@ func (x *Exec) execLoop(fr *Frame, li *loopInfo, pred *ssa.BasicBlock, st *State
 }
 
 func (x *Exec) execLoopUncached(fr *Frame, li *loopInfo, pred *ssa.BasicBlock, st *State) []blockOut {
+	if outs, ok := x.tryComprehension(fr, li, pred, st); ok {
+		return outs
+	}
 	x.NLoops++
 	cur, all := loopMarkTerms(fr, li, x.curMark())
 	var phis []*ssa.Phi
@@ -1097,6 +1150,11 @@ func (x *Exec) execLoopUncached(fr *Frame, li *loopInfo, pred *ssa.BasicBlock, s
 	for _, ph := range phis {
 		if isSlicePhi(ph) && entryPhi[ph] != nil {
 			phiVals[ph] = entryPhi[ph]
+			if e := entryPhi[ph]; e.Op == "fam" || (x.Comprehend && e.Op == "subslice" && e.Args[0].Op != "list") {
+				// a family entering an accumulating loop becomes an abstract list
+				// with one quantified member
+				phiVals[ph] = tList(false, x.membersOf(st, fr, "phi."+ph.Name(), e))
+			}
 		}
 	}
 	head := st.clone()
